@@ -90,6 +90,17 @@ pub const TYPE_WORDS: &[&str] = &[
 ];
 
 fn gen_string(r: &mut Rng) -> String {
+    if r.chance(1, 150) {
+        // longer than the 1024 characters an implicit key may have (around the limit, and well beyond)
+        let n = if r.chance(1, 2) { r.range(1015, 1035) } else { r.range(1036, 3000) };
+        let c = r.pick(&['k', 'é', ' ', '\'', ':']);
+        let mut t: String = std::iter::repeat(if c == ' ' { 'w' } else { c }).take(n).collect();
+        if c == ' ' {
+            // words separated by blanks
+            t = t.chars().enumerate().map(|(i, ch)| if i % 7 == 6 { ' ' } else { ch }).collect();
+        }
+        return t;
+    }
     match r.below(10) {
         0..=2 => r.pick(TYPE_WORDS).to_string(),
         3..=5 => {
